@@ -13,16 +13,19 @@ from ..report import Ctx
 from .common import DECIDER, RANDOM_SOURCE
 
 LEVEL_TEXT = (
-    "Abstract interpretation (affine relational domain with Fourier-Motzkin entailment and integer tightening; each "
-    "random draw is a fresh exact symbol constrained to its range, gene values are arbitrary integers) of every "
-    "implementation, found through the RandomSource / SynthesisDecider hierarchy: (R1) randint and the deciders' "
-    "random_int return a value within [min, max] for all min <= max, with every modulus provably positive; (R2) "
-    "random_float stays within [min, max]; (R3) choice indexes within range and returns an element of its argument, "
-    "shuffle only swaps in-range positions and returns its list, pop_random removes exactly the element it returns, "
-    "choice_weighted draws strictly below the total weight so that the zero-weight fall-through is unreachable and "
-    "compares strictly against the accumulated weights of the aligned options; (R4) NativeRandomSource draws only from "
-    "a private random.Random(seed). A containment that fails is reported only with an attainable witness (exact "
-    "values) or when it fails on every model; 'in proportion to the weights' (a distribution) is not decided."
+    "(R1/R2) Abstract interpretation (affine relational domain with Fourier-Motzkin entailment and integer tightening; each "
+    "random draw is a fresh exact symbol constrained to its range, gene values are arbitrary integers, pure helper functions "
+    "inlined) of every implementation found through the RandomSource / SynthesisDecider hierarchy: randint and the deciders' "
+    "random_int return a value within [min, max] for all min <= max, with every modulus provably positive; random_float "
+    "stays within [min, max]. (R3) choice indexes within range for every length (affine), and the derived primitives are "
+    "interpreted exhaustively on small models (sa/rules/c18model.py: lists of distinct symbols, self.randint taking every "
+    "value of its range): choice returns an element for every draw and every element for some draw; shuffle returns its "
+    "argument as a permutation, producing each of the n! orders for exactly one draw sequence (n <= 4); pop_random removes "
+    "exactly the element it returns, each element for exactly one draw; choice_weighted, on six weight vectors with zero "
+    "weights first / last / in the middle, returns for every draw a comparison can distinguish the option whose cumulative "
+    "interval contains it - never a zero-weight option - and, when the quantities are identifiable, draws strictly below "
+    "the total for every total (affine). (R4) NativeRandomSource draws only from a private random.Random(seed). A "
+    "containment that fails is reported only with an attainable witness or when it fails on every model."
 )
 
 MAXSIZE = "sys.maxsize"
@@ -106,6 +109,11 @@ class Model:
             if isinstance(e.slice, ast.Slice):
                 return None
             return f.fresh("gene", exact=True, integer=True)
+        if isinstance(e.value, ast.Name) and not isinstance(e.slice, ast.Slice):
+            cur = env.vars.get(e.value.id)
+            if isinstance(cur, Lin) and len(cur.coef) == 1 and cur.const == 0 and next(iter(cur.coef)).startswith("gene#"):
+                # a local bound to (a part of) the gene container: its elements are arbitrary integers as well
+                return f.fresh("gene", exact=True, integer=True)
         return None
 
 
@@ -146,6 +154,10 @@ def check_bounded(ctx: Ctx, rule: str, fn: FunctionInfo, integer: bool) -> None:
     model = Model()
     env.hooks.append(model.call)
     env.sub_hooks.append(model.sub)
+    from ..inline import make_inline_hook
+    ih = make_inline_hook(ctx.prog, fn.cls, fn.module, skip=("randint", "random_float", "random", "read", "get", "choice", "random_bool"))
+    env.hooks.append(ih)
+    env.assume_hooks.append(ih.assume)
     outs = interp(fn.node.body, env)
     if not outs:
         ctx.ob(rule, fn, fn.node, "bounded draw", None, "no path")
@@ -160,7 +172,7 @@ def check_bounded(ctx: Ctx, rule: str, fn: FunctionInfo, integer: bool) -> None:
         v = o.value
         if isinstance(v, Opaque):
             bad = [n for n in o.env.facts.notes if isinstance(n, tuple) and n[0] in ("bad-modulus", "bad-divisor")]
-            if bad and bad[0][2] is not None:
+            if bad and bad[0][2] is not None and v.why.startswith(("modulus", "divisor")):
                 what = "modulus" if bad[0][0] == "bad-modulus" else "divisor"
                 ctx.ob(rule, fn, o.node, f"every {what} is non-zero/positive on path [{cond}]", False,
                        f"{what} {bad[0][1]} is not positive at {bad[0][2]} (ZeroDivisionError / out-of-range result)",
@@ -235,113 +247,102 @@ def rule_r3(ctx: Ctx) -> None:
         for node, desc, vd in model.pre:
             verdict_ob(ctx, "C18.R3", f, node, f"choice: {desc.split(' ')[0]} bounds ordered (non-empty argument)", vd)
 
-    # ---- shuffle
-    for f in impls("shuffle"):
-        lst = f.params[1]
-        loops = [l for l in walk_local(f.node) if isinstance(l, ast.For)]
-        rets = [r for r in walk_local(f.node) if isinstance(r, ast.Return)]
-        ok_ret = len(rets) == 1 and isinstance(rets[0].value, ast.Name) and rets[0].value.id == lst
-        ctx.ob("C18.R3", f, rets[0] if rets else f.node, "shuffle returns the list it permuted", ok_ret,
-               "" if ok_ret else "shuffle does not return its argument list")
-        stores = [n for n in walk_local(f.node) if isinstance(n, (ast.Assign, ast.AugAssign, ast.Delete))
-                  and any(isinstance(t, ast.Subscript) and attr_path(t.value) == lst for t in ast.walk(n) if isinstance(getattr(t, 'ctx', None), (ast.Store, ast.Del)))]
-        muts = [c for c in walk_local(f.node) if isinstance(c, ast.Call) and isinstance(c.func, ast.Attribute)
-                and attr_path(c.func.value) == lst and c.func.attr in ("append", "pop", "remove", "insert", "extend", "clear", "sort", "reverse")]
-        ctx.ob("C18.R3", f, muts[0] if muts else f.node, "shuffle changes the list only by swaps", not muts,
-               "" if not muts else f"shuffle calls {lst}.{muts[0].func.attr}(): the result need not be a permutation")
-        for s_ in stores:
-            ok = _is_swap(s_, lst)
-            ctx.ob("C18.R3", f, s_, "store into the list is a swap of two positions", ok,
-                   "" if ok else f"'{norm(s_)[:70]}' is not a swap: elements can be duplicated or lost")
-        if len(loops) == 1 and isinstance(loops[0].target, ast.Name):
-            l = loops[0]
-            rng = l.iter
-            if isinstance(rng, ast.Call) and call_name(rng) == "reversed" and rng.args:
-                rng = rng.args[0]
-            env = Env(Facts())
-            L = env.symbol(f"len({lst})")
-            env.facts.add_ge(L, Lin.c(0))
-            i = env.symbol(l.target.id)
-            decided = False
-            if isinstance(rng, ast.Call) and call_name(rng) == "range" and 1 <= len(rng.args) <= 2:
-                a = evaluate(env, rng.args[0]) if len(rng.args) == 2 else Lin.c(0)
-                b = evaluate(env, rng.args[-1])
-                if isinstance(a, Lin) and isinstance(b, Lin):
-                    env.facts.add_ge(i, a)
-                    env.facts.add_le(i, b - Lin.c(1))
-                    env.vars[l.target.id] = i
-                    decided = True
-            if not decided:
-                ctx.ob("C18.R3", f, l, "shuffle loop range", None, f"unrecognised loop iterable {norm(l.iter)}")
-            else:
-                model = Model({lst: f"len({lst})"})
-                env.hooks.append(model.call)
-                env.sub_hooks.append(model.sub)
-                # evaluate loads and stores of the body for index obligations
-                outs = interp(l.body, env)
-                for s_ in stores:
-                    for t in ast.walk(s_):
-                        if isinstance(t, ast.Subscript) and isinstance(t.ctx, ast.Store) and attr_path(t.value) == lst and outs:
-                            model.sub(outs[0].env, t)
-                seen = set()
-                for node, p, lo, hi in model.index:
-                    k = norm(node)
-                    if k in seen:
-                        continue
-                    seen.add(k)
-                    verdict_ob(ctx, "C18.R3", f, node, f"shuffle index {k} >= 0", lo)
-                    verdict_ob(ctx, "C18.R3", f, node, f"shuffle index {k} <= len-1", hi)
-                for node, desc, vd in model.pre:
-                    verdict_ob(ctx, "C18.R3", f, node, f"shuffle: {desc}", vd)
-        else:
-            ctx.ob("C18.R3", f, f.node, "shuffle loop", None, f"{len(loops)} loops")
+    # ---- choice / shuffle / pop_random: exhaustive small-scope models (sa/rules/c18model.py)
+    import math
+    from ..modelinterp import Budget, Sym, UNKNOWN
+    from .c18model import explore, syms
+    for f in impls("choice"):
+        p_ = f.params[1]
+        bad = und = None
+        for n_ in (1, 2, 3):
+            items = syms("x", n_)
+            try:
+                runs = explore(ctx, f.cls, f, {"self": Sym("self"), p_: list(items)})
+            except Budget:
+                und = "too many interpretations"
+                continue
+            got = []
+            for draws, trace, rv, env_after, notes in runs:
+                if notes:
+                    und = und or notes[0]
+                if any(e.kind == "raise" for e in trace):
+                    bad = bad or f"choice fails on a list of {n_} ({[e.name for e in trace if e.kind == 'raise'][0]}) for the draw {draws}"
+                elif rv not in items:
+                    if rv is UNKNOWN:
+                        und = und or "returned value not followed"
+                    else:
+                        bad = bad or f"choice returns {rv!r}, not an element of its argument (draw {draws})"
+                else:
+                    got.append(rv)
+            if not bad and not und and set(got) != set(items):
+                bad = f"on a list of {n_} choice can only return {sorted(set(map(repr, got)))}: some option is never chosen"
+        ctx.ob("C18.R3", f, f.node, "choice returns an element of its argument for every draw, and every element for some draw (lists of 1..3)",
+               False if bad else (None if und else True), bad or und or "")
 
-    # ---- pop_random
+    for f in impls("shuffle"):
+        p_ = f.params[1]
+        bad = und = None
+        for n_ in (0, 1, 2, 3, 4):
+            items = syms("x", n_)
+            try:
+                runs = explore(ctx, f.cls, f, {"self": Sym("self"), p_: list(items)})
+            except Budget:
+                und = "too many interpretations"
+                continue
+            outcomes = []
+            for draws, trace, rv, env_after, notes in runs:
+                if notes:
+                    und = und or notes[0]
+                if any(e.kind == "raise" for e in trace):
+                    bad = bad or f"shuffle fails on a list of {n_} ({[e.name for e in trace if e.kind == 'raise'][0]}) for the draws {draws}"
+                    continue
+                after = env_after.get(p_)
+                if rv is not after:
+                    bad = bad or "shuffle does not return the list it was given (callers use the return value and the argument interchangeably)"
+                if not isinstance(after, list) or sorted(map(repr, after)) != sorted(map(repr, items)):
+                    bad = bad or f"after the draws {draws} the list holds {after!r}: not a permutation of {items!r} (an element is duplicated or lost)"
+                else:
+                    outcomes.append(tuple(after))
+            if not bad and not und:
+                if len(set(outcomes)) != math.factorial(n_):
+                    bad = f"only {len(set(outcomes))} of the {math.factorial(n_)} orders of {n_} elements can be produced"
+                elif len(outcomes) != math.factorial(n_):
+                    bad = f"{len(outcomes)} draw sequences produce {math.factorial(n_)} orders of {n_} elements: the orders are not equally likely"
+        ctx.ob("C18.R3", f, f.node, "shuffle returns its argument as a permutation for every draw; every order exactly once (lists of 0..4)",
+               False if bad else (None if und else True), bad or und or "")
+
     for f in impls("pop_random"):
-        lst = f.params[1]
-        pops = [c for c in walk_local(f.node) if isinstance(c, ast.Call) and isinstance(c.func, ast.Attribute)
-                and attr_path(c.func.value) == lst and c.func.attr in ("pop", "remove")]
-        ctx.ob("C18.R3", f, pops[0] if pops else f.node, "pop_random removes exactly one element", len(pops) == 1,
-               "" if len(pops) == 1 else f"{len(pops)} removals from the list")
-        env = Env(Facts())
-        L = env.symbol(f"len({lst})")
-        env.facts.add_ge(L, Lin.c(0))
-        model = Model({lst: f"len({lst})"})
-        env.hooks.append(model.call)
-        env.sub_hooks.append(model.sub)
-        outs = interp(f.node.body, env)
-        # the variable holding the removed element
-        held = None
-        for a in f.node.body:
-            if isinstance(a, ast.Assign) and isinstance(a.value, ast.Call) and a.value in pops and isinstance(a.targets[0], ast.Name):
-                held = a.targets[0].id
-        for o in outs:
-            if o.kind == "raise":
+        p_ = f.params[1]
+        bad = und = None
+        for n_ in (1, 2, 3):
+            items = syms("x", n_)
+            try:
+                runs = explore(ctx, f.cls, f, {"self": Sym("self"), p_: list(items)})
+            except Budget:
+                und = "too many interpretations"
                 continue
-            cond = "; ".join(o.conds) or "all"
-            okv = o.kind == "return" and isinstance(o.node.value, ast.Name) and o.node.value.id == held
-            ctx.ob("C18.R3", f, o.node or f.node, f"pop_random returns the removed element on path [{cond}]", okv,
-                   "" if okv else "the returned value is not the element that left the list")
-        for s_ in [n for n in walk_local(f.node) if isinstance(n, ast.Assign) and any(
-                isinstance(t, ast.Subscript) and isinstance(t.ctx, ast.Store) and attr_path(t.value) == lst for t in ast.walk(n))]:
-            ok = _is_exchange(s_, lst, held)
-            ctx.ob("C18.R3", f, s_, "remaining stores exchange the held element with a list position", ok,
-                   "" if ok else f"'{norm(s_)[:70]}' overwrites a list element: an element other than the returned one is lost")
-            for t in ast.walk(s_):
-                if isinstance(t, ast.Subscript) and isinstance(t.ctx, ast.Store) and attr_path(t.value) == lst:
-                    for o in outs:
-                        if any("not" in c for c in o.conds) or len(outs) == 1:
-                            model.sub(o.env, t)
-        seen = set()
-        for node, p, lo, hi in model.index:
-            k = (norm(node), isinstance(getattr(node, "ctx", None), ast.Store))
-            if k in seen:
-                continue
-            seen.add(k)
-            verdict_ob(ctx, "C18.R3", f, node, f"pop_random index {k[0]} >= 0", lo)
-            verdict_ob(ctx, "C18.R3", f, node, f"pop_random index {k[0]} <= len-1", hi)
-        for node, desc, vd in model.pre:
-            verdict_ob(ctx, "C18.R3", f, node, f"pop_random: {desc}", vd)
+            got = []
+            for draws, trace, rv, env_after, notes in runs:
+                if notes:
+                    und = und or notes[0]
+                if any(e.kind == "raise" for e in trace):
+                    bad = bad or f"pop_random fails on a list of {n_} ({[e.name for e in trace if e.kind == 'raise'][0]}) for the draw {draws}"
+                    continue
+                after = env_after.get(p_)
+                if rv is UNKNOWN or not isinstance(after, list):
+                    und = und or "result not followed"
+                    continue
+                if rv not in items:
+                    bad = bad or f"pop_random returns {rv!r}, not an element of the list (draw {draws})"
+                elif sorted(map(repr, after + [rv])) != sorted(map(repr, items)):
+                    bad = bad or (f"for the draw {draws} pop_random returns {rv!r} and leaves {after!r} of {items!r}: the element removed is not "
+                                  f"the one returned")
+                else:
+                    got.append(rv)
+            if not bad and not und and (set(got) != set(items) or len(got) != n_):
+                bad = f"on a list of {n_}: {len(got)} draws return {sorted(set(map(repr, got)))} - not every element exactly once"
+        ctx.ob("C18.R3", f, f.node, "pop_random removes exactly the element it returns; every element for exactly one draw (lists of 1..3)",
+               False if bad else (None if und else True), bad or und or "")
 
     # ---- choice_weighted
     for f in impls("choice_weighted"):
@@ -398,8 +399,11 @@ def check_choice_weighted(ctx: Ctx, f: FunctionInfo) -> None:
             elif isinstance(v, ast.Call) and call_name(v) == "randint":
                 draw, draw_call = tg.id, v
     if not (acc and total and draw):
-        ctx.ob("C18.R3", f, f.node, "choice_weighted: accumulated weights / total / draw", None,
-               f"cannot identify accumulated weights ({acc}), total ({total}) and draw ({draw})")
+        # the affine proof 'draw < total for every total' needs the three quantities by name; without them the
+        # small-scope model below still decides the contract on its weight vectors
+        ctx.notes.append(f"{f.fullname}: accumulated weights / total / draw not identified by name ({acc}, {total}, {draw}); "
+                         f"the affine 'draw < total' proof is skipped, the interpreted model decides")
+        weighted_selection_model(ctx, f, "C18.R3")
         return
     env = Env(Facts())
     T = env.symbol(total)
@@ -416,49 +420,53 @@ def check_choice_weighted(ctx: Ctx, f: FunctionInfo) -> None:
         verdict_ob(ctx, "C18.R3", f, draw_call, "weighted draw < total weight (zero-weight fall-through unreachable)", v)
     else:
         ctx.ob("C18.R3", f, draw_call, "weighted draw bounds", None, "bounds not affine")
-    # selection: strict comparison against the accumulated weights, aligned with the options
-    loops = [l for l in walk_local(f.node) if isinstance(l, ast.For)]
-    bis = [c for c in walk_local(f.node) if isinstance(c, ast.Call) and call_name(c) in ("bisect", "bisect_right", "bisect_left")]
-    if bis:
-        c = bis[0]
-        ok = call_name(c) in ("bisect", "bisect_right") and len(c.args) >= 2 and isinstance(c.args[0], ast.Name) and c.args[0].id == acc \
-            and isinstance(c.args[1], ast.Name) and c.args[1].id == draw
-        ctx.ob("C18.R3", f, c, "option selected = first accumulated weight strictly above the draw", ok,
-               "" if ok else "bisect_left selects the first accumulated weight >= draw: a draw equal to a boundary picks the "
-                             "earlier option, so a leading zero-weight option is returned for draw 0")
-        return
-    if len(loops) != 1:
-        ctx.ob("C18.R3", f, f.node, "weighted selection loop", None, f"{len(loops)} loops")
-        return
-    l = loops[0]
-    it = l.iter
-    aligned = isinstance(it, ast.Call) and call_name(it) == "zip" and len(it.args) == 2 \
-        and isinstance(it.args[0], ast.Name) and it.args[0].id == choices and isinstance(it.args[1], ast.Name) and it.args[1].id == acc \
-        and isinstance(l.target, ast.Tuple) and len(l.target.elts) == 2
-    ctx.ob("C18.R3", f, l, "options are paired with their own accumulated weights", aligned,
-           "" if aligned else f"the loop does not zip the options with the accumulated weights ({norm(it)})")
-    if aligned:
-        cv, av = l.target.elts[0].id, l.target.elts[1].id
-        ifs = [s_ for s_ in l.body if isinstance(s_, ast.If)]
-        ok = False
-        why = "no 'if draw < acc: return option' in the loop"
-        if len(ifs) == 1 and isinstance(ifs[0].test, ast.Compare) and len(ifs[0].test.ops) == 1:
-            t = ifs[0].test
-            a, op, b = t.left, t.ops[0], t.comparators[0]
-            def is_d(e): return isinstance(e, ast.Name) and e.id == draw
-            def is_a(e): return isinstance(e, ast.Name) and e.id == av
-            strict = (is_d(a) and is_a(b) and isinstance(op, ast.Lt)) or (is_a(a) and is_d(b) and isinstance(op, ast.Gt))
-            loose = (is_d(a) and is_a(b) and isinstance(op, ast.LtE)) or (is_a(a) and is_d(b) and isinstance(op, ast.GtE))
-            ret = [r for r in ifs[0].body if isinstance(r, ast.Return)]
-            ret_ok = len(ret) == 1 and isinstance(ret[0].value, ast.Name) and ret[0].value.id == cv
-            ok = strict and ret_ok
-            if loose:
-                why = "'draw <= acc' selects an option whose accumulated weight equals the draw: with draw 0 a leading " \
-                      "zero-weight option is returned"
-            elif not ret_ok:
-                why = "the loop does not return the option paired with the matching accumulated weight"
-        ctx.ob("C18.R3", f, ifs[0] if ifs else l, "option selected = first accumulated weight strictly above the draw", ok,
-               "" if ok else why)
+    weighted_selection_model(ctx, f, "C18.R3")
+
+
+def weighted_selection_model(ctx: Ctx, f: FunctionInfo, rule: str) -> None:
+    """choice_weighted interpreted on five weight vectors (zero weights first, last, in the middle, all but one) for every
+    draw a comparison can distinguish (ends of the range, each accumulated threshold, one below, one above): the option
+    returned is the one whose cumulative interval contains the draw - never an option of weight zero."""
+    from ..modelinterp import Budget, Sym, UNKNOWN
+    from .c18model import explore, syms
+    choices, weights = f.params[1], f.params[2]
+    bad = und = None
+    n = 0
+    for ws in ([0, 1], [1, 0], [0.5, 0, 1.5], [2, 1], [0, 0, 1], [1, 1, 1]):
+        opts = syms("o", len(ws))
+        acc, th = 0, []
+        for w in ws:
+            acc += w
+            th.append(int(acc * 100000))
+        try:
+            runs = explore(ctx, f.cls, f, {"self": Sym("self"), choices: list(opts), weights: list(ws)}, marks=tuple(th))
+        except Budget:
+            und = "too many interpretations"
+            continue
+        for draws, trace, rv, env_after, notes in runs:
+            if notes:
+                und = und or notes[0]
+            if any(e.kind == "raise" for e in trace):
+                bad = bad or (f"weights {ws}: choice_weighted fails ({[e.name for e in trace if e.kind == 'raise'][0]}) for the draw {draws}", ws)
+                continue
+            if len(draws) != 1:
+                und = und or f"{len(draws)} draws per call: not the modelled single-draw scheme"
+                continue
+            n += 1
+            d = draws[0]
+            want = next((o for o, t in zip(opts, th) if d < t), None)
+            if rv is UNKNOWN:
+                und = und or "returned option not followed"
+            elif want is None:
+                bad = bad or (f"weights {ws}: the draw {d} is not below the total weight {th[-1]}: it falls through every comparison and "
+                              f"{rv!r} is returned whatever its weight", ws)
+            elif rv != want:
+                w_rv = ws[opts.index(rv)] if rv in opts else None
+                bad = bad or (f"weights {ws}: for the draw {d} the option {rv!r}" + (f" (weight {w_rv})" if w_rv is not None else "") +
+                              f" is returned, the draw lies in the interval of {want!r}"
+                              + (": an option of zero weight is selected" if w_rv == 0 else ": options are not selected in proportion to their weights"), ws)
+    ctx.ob(rule, f, f.node, "weighted choice returns the option whose cumulative interval contains the draw (never a zero-weight option)",
+           False if bad else (None if und else True), bad[0] if bad else (und or ""), witness={"weights": bad[1]} if bad else {"draws": n})
 
 
 def rule_r4(ctx: Ctx) -> None:
